@@ -359,8 +359,9 @@ func (self *Transformer) IterOnceWhileLoop(node ast.AnalyzedStatement) ast.Analy
 }
 
 func (self *Transformer) WhileStmtAsLoop(node ast.AnalyzedWhileStatement) []ast.AnalyzedStatement {
-	if node.Condition.Type().Kind() == ast.NeverTypeKind {
+	if node.Condition.Type().Kind() == ast.NeverTypeKind || self.exprCanControlLoop(node.Condition) {
 		// This is required in order to prevent putting a `break` into a new loop, which defeats the purpose
+		// (the condition of a `while` belongs to the enclosing loop: a `break` in it leaves that one)
 		return []ast.AnalyzedStatement{node}
 	}
 
